@@ -55,3 +55,27 @@ def mat_make(C, R, tag, name, Q='glm::defaultp'):
 
 def mat_store(C, R, var, out='out'):
     return ' '.join('%s[%d] = %s[%d][%d];' % (out, c * R + r, var, c, r) for c in range(C) for r in range(R))
+
+
+def same_as_build_contracts(P, driver, build, ref_tag, names, label, tier='quick', timeout=300, zero_sign_free=False):
+    """relational family: every shim in `names`, extracted under `build`, returns bit-identical results (NaN == NaN) to its extraction under the
+    reference build `ref_tag` of the same driver, for all argument values; float arithmetic and libm calls are abstracted on both sides
+    (same operations on the same bits), with the engine's automatic exact-arithmetic refinement"""
+    def beq(t, a, b):
+        if t == 'float':
+            return '(ll2c_f32_bits(%s) == ll2c_f32_bits(%s) || (%s != %s && %s != %s))' % (a, b, a, a, b, b)
+        if t == 'double':
+            return '(ll2c_f64_bits(%s) == ll2c_f64_bits(%s) || (%s != %s && %s != %s))' % (a, b, a, a, b, b)
+        return '%s == %s' % (a, b)
+    build.only = set(names) if getattr(build, 'only', None) is None else build.only | set(names)
+    for n in names:
+        sg = driver.shims[n].view_sig()
+        args = ', '.join(nm for _, nm in sg['ins'])
+        ens = []
+        if sg['ret'] != 'void':
+            ens.append(('same_result_as_%s' % ref_tag, beq(sg['ret'], 'RESULT', 'R_%s(%s)' % (n, args))))
+        for k, (t, on, cnt) in enumerate(sg['outs']):
+            for i in range(cnt):
+                ens.append(('same_%s_%d_as_%s' % (on, i, ref_tag), beq(t, '%s[%d]' % (on, i), 'R_%s__o%d_%d(%s)' % (n, k, i, args))))
+        P.contract(n, '%s: %s vs %s' % (label, n, ref_tag), ensures=ens, build=build, rel=(ref_tag, [n]), unwind=12,
+                   uf_float=('fmul', 'fdiv', 'fadd', 'fsub', 'sqrt'), timeout=timeout, tier=tier, backends=('sat',))
